@@ -17,9 +17,21 @@ pub open spec fn diag_pos(m: Seq<f64>, n: int) -> bool { forall|i: int| 0 <= i <
 '''
 SPEC = c15.SPEC + SYM_SPEC
 
-# is_square goes through `(len as f32).sqrt()`: outside the float levels -> assumed contract (tier A), spot-checked for len <= 2^20
-is_square = Fn(U + 'is_square', ret='r', level='A',
-               ensures=['A.is_square:: match r { Ok(n) => n * n == m@.len(), Err(_) => forall|k: int| 0 <= k ==> #[trigger] (k * k) != m@.len() }'])
+# is_square: `n = round(sqrt(len as f64)) as usize; n*n == len ? Ok(n) : Err`.  The Ok side follows from the integer comparison alone; the Err side needs
+# that the rounded f64 square root of a perfect square k*k <= 2^53 is k (IEEE sqrt is correctly rounded, so exact on representable perfect squares): axiom ax_isqrt_exact.
+ISQ_SPEC = r'''
+#[verifier::external_body]
+pub proof fn ax_isqrt_exact(k: int)
+    ensures 0 <= k && k * k <= 0x20_0000_0000_0000 ==> f_to_int(f_round(f_sqrt(f_of_int(k * k)))) == k {}
+'''
+is_square = Fn(U + 'is_square', ret='r', level='L1', float_casts=(1,),
+               ensures=['C15.is_square.ok:: r matches Ok(n) ==> n * n == m@.len()',
+                        'C15.is_square.err:: r is Err && m@.len() <= 0x20_0000_0000_0000 ==> forall|k: int| 0 <= k ==> #[trigger] (k * k) != m@.len()'],
+               hints=[('if n.checked_mul(n)', 'before', 'proof { assert forall|k: int| 0 <= k && #[trigger] (k * k) == m@.len() && m@.len() <= 0x20_0000_0000_0000 implies n == k by { ax_isqrt_exact(k); '
+                       'assert(k <= k * k) by(nonlinear_arith) requires k >= 0; } }')])
+IS_SQUARE_UNIT = Unit('C15_is_square', ('C15', 'C01', 'C11'), [is_square], spec=ISQ_SPEC, preludes=PRE, broadcast=BC, level='L1',
+                      notes='is_square: Ok(n) only if n*n equals the length (integer comparison); Err only if the length is not a perfect square (for lengths up to 2^53, '
+                            'through the axiom that the rounded f64 square root of a perfect square is exact)')
 UNWRAP_SQ = ('is_square(m).unwrap()', 'match is_square(m) { Ok(v_) => v_, Err(_) => ::core::panicking::panic("unwrap") }',
              'R2b: Result::unwrap is this match by definition; its panic is a REJECT site')
 SQV = 'exists|k: int| 0 <= k && #[trigger] (k * k) == m@.len()'
@@ -48,6 +60,7 @@ pub proof fn lemma_sq_unique(n: int, len: int) requires 0 <= n, n * n == len
 SPEC += SQ_UNIQUE
 
 UNITS = [
+    IS_SQUARE_UNIT,
     Unit('C01_predicates', ('C01', 'C11', 'C15'), [is_symmetric], use=[is_square], types=core.TYPES, type_spec=core.TYPE_SPEC, spec=SPEC, preludes=PRE, broadcast=BC, level='L1',
          notes='slice-level symmetry predicate answers per its definition with the code\'s epsilon (routing of the solvers rests on it)'),
 ]
